@@ -21,10 +21,14 @@ History operations (mirroring coq/C07/World.v:wop):
   ('reapfault', p, chan, 'EIO'|'EBADF')  the same, but read(2) on p's `chan` pipe fails during the drain
   ('reopen',)                 SIGUSR2 handling: group.reopenlogs() for every group
   ('clear', p)                clearProcessLogs: Subprocess.removelogs()
+  ('moveaway', p)             an external logrotate renames p's log files (the open handlers keep writing
+                              to the renamed files until the next reopen)
+  ('lbusy', p)                harness only: put the event listener p into BUSY with an event in flight, as the
+                              pool does after sending it one (so that a RESULT line is parsed)
   ('open',) / ('close', fd)   unrelated descriptors
 
 A process configuration is (redirect_stderr, stdout_capture_maxbytes, stderr_capture_maxbytes,
-stdout_events_enabled, stderr_events_enabled[, no log files[, (logfile_maxbytes, logfile_backups)[, logfiles AUTO]]]).
+stdout_events_enabled, stderr_events_enabled[, no log files[, (logfile_maxbytes, logfile_backups)[, logfiles AUTO[, event listener]]]]).
 """
 import errno
 import os
@@ -197,7 +201,8 @@ class Seam(object):
                 os.unlink(f)
         self._autofiles = []
         from supervisor import options as so, supervisord, events, loggers
-        from supervisor.options import ServerOptions, ProcessConfig, ProcessGroupConfig
+        from supervisor.options import ServerOptions, ProcessConfig, ProcessGroupConfig, EventListenerConfig, EventListenerPoolConfig
+        from supervisor.dispatchers import default_handler
         self.kernel = Kernel(nopen)
         self.count += 1
         opts = self.options
@@ -214,6 +219,9 @@ class Seam(object):
         self.nolog = []
         self.rot = []
         autos = []
+        listeners = []
+        self.moved = [[[], []] for _ in cfgs]          # renamed log files, oldest first
+        self.reopen_mark = [[None, None] for _ in cfgs]  # log length at the last reopen after a move-away
         opts.childlogdir = self.workdir
         opts.identifier = 'supervisor'
         self.cleared = [False] * len(cfgs)
@@ -223,6 +231,7 @@ class Seam(object):
             nolog = bool(cfg[5]) if len(cfg) > 5 else False
             rot = cfg[6] if len(cfg) > 6 and cfg[6] else (0, 0)
             auto = bool(cfg[7]) if len(cfg) > 7 else False
+            listeners.append(bool(cfg[8]) if len(cfg) > 8 else False)
             self.nolog.append(nolog)
             self.rot.append(rot)
             out = os.path.join(self.workdir, 'p%d.out' % i)
@@ -239,7 +248,7 @@ class Seam(object):
                 from supervisor.datatypes import Automatic
                 out = err = Automatic
                 autos.append(i)
-            pconfigs.append(ProcessConfig(
+            pconfigs.append((EventListenerConfig if listeners[-1] else ProcessConfig)(
                 opts, name='proc%d' % i, uid=None, command='/bin/sh', directory=None, umask=None,
                 priority=999, autostart=False, autorestart=False, startsecs=0, startretries=3,
                 stdout_logfile=out, stdout_capture_maxbytes=cap_out, stdout_events_enabled=ev_out,
@@ -249,7 +258,14 @@ class Seam(object):
                 stderr_syslog=False, stopsignal=15, stopwaitsecs=10, stopasgroup=False, killasgroup=False,
                 exitcodes=[0], redirect_stderr=redirect, environment=None, serverurl=None))
         # two groups, insertion order = process index order
-        gconfigs = [ProcessGroupConfig(opts, 'g0', 999, pconfigs[:2]), ProcessGroupConfig(opts, 'g1', 999, pconfigs[2:])]
+        self.listeners = listeners
+        if any(listeners):
+            # one group per process, in index order; a listener lives in a real EventListenerPool (its
+            # event subscriptions are dropped below by events.clear(): the pool never dispatches)
+            gconfigs = [(EventListenerPoolConfig(opts, 'g%d' % i, 999, [pc], 10, [], default_handler) if listeners[i]
+                         else ProcessGroupConfig(opts, 'g%d' % i, 999, [pc])) for i, pc in enumerate(pconfigs)]
+        else:
+            gconfigs = [ProcessGroupConfig(opts, 'g0', 999, pconfigs[:2]), ProcessGroupConfig(opts, 'g1', 999, pconfigs[2:])]
         self.passthrough = True
         try:
             for gc in gconfigs:
@@ -402,14 +418,44 @@ class Seam(object):
                 finally:
                     k.read_fault = {}
                 self.child[p] = None
+        elif kind == 'moveaway':
+            p = o[1]
+            for ci in range(2):
+                f = self.paths[p][ci]
+                if os.path.exists(f):
+                    dst = '%s.moved%d' % (f, len(self.moved[p][ci]))
+                    os.rename(f, dst)
+                    self.moved[p][ci].append(dst)
+                    self.reopen_mark[p][ci] = 'pending'
+        elif kind == 'lbusy':
+            p = o[1]
+            proc = self.procs[p]
+            if self.listeners[p] and proc.pid:
+                from supervisor.states import EventListenerStates
+                from supervisor import events as ev
+                if proc.listener_state == EventListenerStates.READY:
+                    proc.listener_state = EventListenerStates.BUSY
+                    proc.event = ev.Tick5Event(0, self.sup)
         elif kind == 'reopen':
             # supervisord.handle_signal(SIGUSR2): for group in self.process_groups.values(): group.reopenlogs()
             for g in self.sup.process_groups.values():
                 g.reopenlogs()
+            whole = self.logs()
+            for p in range(len(self.procs)):
+                for ci, chan in enumerate(('stdout', 'stderr')):
+                    if self.reopen_mark[p][ci] == 'pending' and self._disp_fd(self.procs[p], chan)[1] is not None:
+                        self.reopen_mark[p][ci] = len(whole[p][ci])
         elif kind == 'clear':
             p = o[1]
             if self.procs[p].dispatchers:
                 self.cleared[p] = True
+                self.reopen_mark[p] = [None, None]
+                # the renamed copies are not part of the log any more either
+                for ci in range(2):
+                    for f in self.moved[p][ci]:
+                        if os.path.exists(f):
+                            os.unlink(f)
+                    self.moved[p][ci] = []
             self.procs[p].removelogs()
         elif kind == 'open':
             k.open_other()
@@ -450,24 +496,42 @@ class Seam(object):
             for fd, d in proc.dispatchers.items():
                 out.append(fd * 4 + CH_CODE[d.channel])
             for ci, chan in enumerate(('stdout', 'stderr')):
-                out.append(self._logsize(self.paths[i][ci]))
+                out.append(sum(self._logsize(f) for f in self.moved[i][ci] + [self.paths[i][ci]]))
                 fd, d = self._disp_fd(proc, chan)
                 if d is None:
                     out += [0, 0, 0]
                 else:
-                    out += [len(d.output_buffer), int(bool(d.capturemode)), int(bool(d.closed))]
+                    # a PEventListenerDispatcher holds nothing back for the log and has no capture mode
+                    out += [len(getattr(d, 'output_buffer', b'')), int(bool(getattr(d, 'capturemode', False))), int(bool(d.closed))]
         return out
 
     def logs(self):
+        """the log as a whole: files renamed away by ('moveaway', p), oldest first, then the configured path"""
+        res = []
+        for i in range(len(self.procs)):
+            row = []
+            for ci in range(2):
+                data = b''
+                for f in self.moved[i][ci] + [self.paths[i][ci]]:
+                    try:
+                        with open(f, 'rb') as fh:
+                            data += fh.read()
+                    except IOError:
+                        pass
+                row.append(data)
+            res.append(row)
+        return res
+
+    def current_files(self):
         res = []
         for i in range(len(self.procs)):
             row = []
             for ci in range(2):
                 try:
-                    with open(self.paths[i][ci], 'rb') as f:
-                        row.append(f.read())
+                    with open(self.paths[i][ci], 'rb') as fh:
+                        row.append(fh.read())
                 except IOError:
-                    row.append(b'')
+                    row.append(None)
             res.append(row)
         return res
 
@@ -488,6 +552,8 @@ class Seam(object):
                 if os.path.exists(self.paths[i][ci]):
                     with open(self.paths[i][ci], 'rb') as fh:
                         data += fh.read()
+                if self.moved[i][ci]:
+                    data = self.logs()[i][ci]
                 row.append(data)
             res.append(row)
         return res
@@ -508,13 +574,20 @@ class Seam(object):
         trace = []
         for o in ops:
             self.op(o)
-            trace += self.step_ser()
+            if o[0] != 'lbusy':
+                trace += self.step_ser()
         trace += self.final_ser()
         if self.header_errors:
             raise HarnessFailure(self.header_errors[0])
         info = {'logs': self.logs(), 'events': list(self.events), 'written': self.written,
                 'running': [bool(p.pid) for p in self.procs], 'cleared': list(self.cleared),
-                'full_logs': self.full_logs(), 'nolog': list(self.nolog), 'rot': list(self.rot)}
+                'full_logs': self.full_logs(), 'nolog': list(self.nolog), 'rot': list(self.rot),
+                'reopen_mark': [list(r) for r in self.reopen_mark], 'current': self.current_files()}
+        for i in range(len(self.procs)):
+            for ci in range(2):
+                for f in self.moved[i][ci]:
+                    if os.path.exists(f):
+                        os.unlink(f)
         # drop the process objects so that their log files are closed
         for p in self.procs:
             p.dispatchers = {}
@@ -580,6 +653,18 @@ def judge(cfgs, strip, info, begin, end):
                     bad.append((p, chan, 'wrong: the beginning of the output is missing from the log'))
                 else:
                     bad.append((p, chan, 'wrong: log (backups + current file) is not the output in order'))
+            mark = info['reopen_mark'][p][ci]
+            if isinstance(mark, int) and not info['cleared'][p] and not info['nolog'][p]:
+                # the log file was renamed away and a reopen was requested while this channel had a dispatcher:
+                # from then on the output belongs in a new file at the configured path
+                cur = info['current'][p][ci]
+                if cur is None:
+                    if got[mark:]:
+                        bad.append((p, chan, 'wrong: after the log file was moved away and a reopen requested, the '
+                                             'configured path was never created; later output went to the renamed file'))
+                elif cur != got[mark:]:
+                    bad.append((p, chan, 'wrong: the file at the configured path does not hold exactly what was logged '
+                                         'after the reopen'))
             if ev and not cap and not info['cleared'][p] and not info['nolog'][p] and not maxbytes:
                 # PROCESS_LOG events of this channel carry the same bytes, with the writer's identity
                 data = b''.join(d for (k, pp, pid, ch, d) in info['events'] if k == 0 and pp == p and ch == CH_CODE[chan])
